@@ -181,7 +181,8 @@ CLAIMED.update({
              "recovered store answers a miss or a version really written for the key; an index entry whose bytes fail "
              "verification is a miss; (blob index page, arbitrary bytes) BlobIndexReader::read hands entries to recovery only "
              "if the stored checksum equals the checksum of everything behind it - count included - and can panic only on a page "
-             "whose checksum verifies. Fault-injection oracle: every single-page fault (zero, 0xff, bit flips, swaps within and "
+             "whose checksum verifies; (tombstone log, no checksum) recovery with the key's tombstones replaced by an ARBITRARY list "
+             "still answers a miss or a version really written. Fault-injection oracle: every single-page fault (zero, 0xff, bit flips, swaps within and "
              "across blocks and with the tombstone log) on images of real workloads, reopen in quiet mode, read every key.",
         ref="4/C03", tech="Coq proof (acceptance lemma over arbitrary bytes; unconditional version invariant) + extracted-model "
                           "correspondence + fault-injection oracle",
